@@ -68,6 +68,24 @@ DURATION_FMT_PARTS = [
          },
 ]
 
+FROM_CAPTURES = {
+    'kind': 'fn', 'src': Z, 'path': 'impl FeelZone::fn from_captures', 'key': 'calendar::FeelZone::from_captures',
+    'props': ['C14'], 'auto_props': ['C14', 'C05'], 'loops': 0, 'ret': 'r',
+    'body_prefix': 'broadcast use axiom_zone_name_of;\nproof { reveal_strlit("-"); reveal_strlit("zulu"); reveal_strlit("offSign"); reveal_strlit("offHours"); reveal_strlit("offMinutes"); reveal_strlit("offSeconds"); reveal_strlit("zone"); }',
+    'requires': [('regex_two_digit_fields',
+                  '(cap_num(*captures, "offHours"@) is Some ==> 0 <= cap_num(*captures, "offHours"@)->Some_0 <= 99) && '
+                  '(cap_num(*captures, "offMinutes"@) is Some ==> 0 <= cap_num(*captures, "offMinutes"@)->Some_0 <= 99) && '
+                  '(cap_num(*captures, "offSeconds"@) is Some ==> 0 <= cap_num(*captures, "offSeconds"@)->Some_0 <= 99)'),
+                 ('regex_fields_are_decimal',
+                  '(cap_text(*captures, "offHours"@) is Some ==> cap_num(*captures, "offHours"@) is Some) && '
+                  '(cap_text(*captures, "offMinutes"@) is Some ==> cap_num(*captures, "offMinutes"@) is Some) && '
+                  '(cap_text(*captures, "offSign"@) is Some ==> cap_text(*captures, "offHours"@) is Some && cap_text(*captures, "offMinutes"@) is Some) && '
+                  '(cap_text(*captures, "offSeconds"@) is Some ==> cap_num(*captures, "offSeconds"@) is Some)')],
+    'rewrites': [('RX', 'R11', r'(\w+)\.as_str\(\)\.parse::<i32>\(\)', r'parse_i32(\1.as_str())', 3),
+                 ('RX', 'R11', r'(\w+)\.as_str\(\)\.parse::<chrono_tz::Tz>\(\)\.is_ok\(\)', r'parse_tz_ok(\1.as_str())', 1)],
+    'ensures': [('denotes_written_zone', 'r == zone_suffix_denotes(*captures)')],
+}
+
 UNIT = {
     'name': 'calendar',
     'uses': ['use std::cmp::Ordering;'],
@@ -80,16 +98,16 @@ UNIT = {
          'rewrites': [('RX', 'R7', r'pub struct FeelYearsAndMonthsDuration\(i64\);', 'pub struct FeelYearsAndMonthsDuration(pub i64);', 1)]},
         {'kind': 'item', 'src': YM, 'path': 'const MONTHS_IN_YEAR'},
         # ------------------------------------------------------------------ Gregorian rules
-        dfn('fn is_leap_year', 'is_leap_year', ret='r',
+        dfn('fn is_leap_year', 'is_leap_year', ret='r', props=['C15','C14'], auto_props=['C15','C14','C05'],
             ensures=[('gregorian_leap', 'r == greg_leap(year as int)')]),
-        dfn('fn last_day_of_month', 'last_day_of_month', ret='r',
+        dfn('fn last_day_of_month', 'last_day_of_month', ret='r', props=['C15','C14'], auto_props=['C15','C14','C05'],
             ensures=[('month_lengths', '(1 <= month <= 12) ==> r == Some(greg_last_day(year as int, month as int) as u8)'),
                      ('no_such_month', '!(1 <= month <= 12) ==> r is None')]),
-        dfn('fn is_valid_date', 'is_valid_date', ret='r',
+        dfn('fn is_valid_date', 'is_valid_date', ret='r', props=['C15','C14'], auto_props=['C15','C14','C05'],
             rewrites=[('RX', 'R11', r'DateTime::try_from\(FeelDate\(year, month, day\)\)\.is_ok\(\)', 'chrono_date_ok(year, month, day)', 1)],
             ensures=[('valid_implies_calendar', 'r ==> greg_valid(year as int, month as int, day as int) && feel_year_ok(year as int)'),
                      ('calendar_implies_valid', 'greg_valid(year as int, month as int, day as int) && feel_year_ok(year as int) ==> r')]),
-        dfn('impl FeelDate::fn new_opt', 'FeelDate::new_opt', ret='r',
+        dfn('impl FeelDate::fn new_opt', 'FeelDate::new_opt', ret='r', props=['C15','C14'], auto_props=['C15','C14','C05'],
             ensures=[('some_iff_valid', 'r is Some <==> greg_valid(year as int, month as int, day as int) && feel_year_ok(year as int)'),
                      ('components', 'r is Some ==> r->Some_0.0 == year && r->Some_0.1 == month && r->Some_0.2 == day')]),
         dfn('impl FeelDate::fn new', 'FeelDate::new', ret='r', ensures=[('components', DATE_VIEW)]),
@@ -164,7 +182,7 @@ impl vstd::std_specs::cmp::PartialOrdSpecImpl for FeelDate {
         {'kind': 'fn', 'src': DT, 'path': 'impl FeelDaysAndTimeDuration::fn ' + name, 'key': 'calendar::FeelDaysAndTimeDuration::' + name,
          'props': P15, 'auto_props': A15, 'loops': 0, 'ret': 'r',
          'requires': [('not_min', 'self.0 != i128::MIN')],
-         'body_prefix': 'proof { lemma_dt_decomposition(iabs(self.0 as int)); }',
+         'body_prefix': 'proof { lemma_dt_decomposition(iabs(self.0 as int)); lemma_mod_chain(iabs(self.0 as int)); }',
          'ensures': [('component', '%s(iabs(self.0 as int)) <= usize::MAX ==> r == %s(iabs(self.0 as int))' % (spec, spec))]}
         for (name, spec) in [('get_days', 'dt_days'), ('get_hours', 'dt_hours'), ('get_minutes', 'dt_minutes'), ('get_seconds', 'dt_seconds')]
     ] + [
@@ -196,7 +214,7 @@ impl vstd::std_specs::cmp::PartialOrdSpecImpl for FeelDate {
          'splices': [{'id': 'printed_offset_denotes_offset', 'op': 'before', 'anchor': 'if seconds > 0 {',
                       'text': "assert((sign == '-' || sign == '+') && zone_text_denotes(sign == '-', hours as int, minutes as int, seconds as int) == *offset as int && 0 <= hours && 0 <= minutes < 60 && 0 <= seconds < 60);"}],
          },
-    ] + DURATION_FMT_PARTS,
+    ] + DURATION_FMT_PARTS + [FROM_CAPTURES],
 }
 
 NOT_DECIDED = {
